@@ -241,6 +241,9 @@ func (c *Ctx) statelessRule(rule, label string, entries []*ssa.Function) {
 		c.mutGlobals = map[*ssa.Global]string{}
 		isInit := func(f *ssa.Function) bool { return f.Name() == "init" || strings.HasPrefix(f.Name(), "init#") }
 		for _, f := range c.Funcs {
+			if c.Tags == "testing" && tagGuardedTestHook(f) {
+				continue // reviewed: unit-test hooks compiled only under //go:build testing, absent from production builds
+			}
 			forEachInstr(f, func(in ssa.Instruction) {
 				switch x := in.(type) {
 				case *ssa.Store:
